@@ -149,6 +149,8 @@ impl Wide {
 pub enum Variant {
     Channel(Channel),
     Repeat(usize),
+    /// same invocation, other way of passing it (relative paths / @argfile)
+    Style(u8),
 }
 
 #[derive(Clone, Debug, PartialEq, Eq, Serialize, Deserialize)]
@@ -344,7 +346,9 @@ pub fn gen_table_plan(rng: &mut Prng, property: &str, thorough: bool) -> TablePl
     if !c11 {
         let k = rng.range(1, 3);
         for _ in 0..k {
-            if rng.coin() {
+            if rng.chance(1, 5) {
+                variants.push(Variant::Style(rng.range(1, 3) as u8));
+            } else if rng.coin() {
                 variants.push(Variant::Channel(gen_channel(rng)));
             } else {
                 variants.push(Variant::Repeat(if rng.chance(1, 10) { rng.range(5, 12) } else { rng.range(1, 4) }));
@@ -434,6 +438,9 @@ pub struct Invocation<'a> {
     pub channel: &'a Channel,
     pub args: Vec<String>,
     pub ordering: Option<&'a [u8]>,
+    /// bit 0: file arguments are given relative to the working directory; bit 1: all arguments
+    /// are passed through an @argfile (one per line) instead of argv
+    pub style: u8,
 }
 
 pub fn run_rsbdd(dir: &Path, inv: &Invocation) -> Spawned {
@@ -445,7 +452,7 @@ pub fn run_rsbdd(dir: &Path, inv: &Invocation) -> Spawned {
         Channel::File => {
             let p = dir.join("f.txt");
             std::fs::write(&p, inv.text).expect("tmpfs write");
-            args.push(p.to_string_lossy().to_string());
+            args.push(if inv.style & 1 == 1 { "f.txt".to_string() } else { p.to_string_lossy().to_string() });
         }
         Channel::StdinFile => {
             let p = dir.join("f.txt");
@@ -458,9 +465,14 @@ pub fn run_rsbdd(dir: &Path, inv: &Invocation) -> Spawned {
         let p = dir.join("o.txt");
         std::fs::write(&p, o).expect("tmpfs write");
         args.push("-o".into());
-        args.push(p.to_string_lossy().to_string());
+        args.push(if inv.style & 1 == 1 { "o.txt".to_string() } else { p.to_string_lossy().to_string() });
     }
     args.extend(inv.args.iter().cloned());
+    if inv.style & 2 == 2 && args.iter().all(|a| !a.contains('\n') && !a.contains('\r') && !a.is_empty() && a.trim() == a) {
+        // argfile: one argument per line; only when every argument survives that encoding verbatim
+        std::fs::write(dir.join("args.txt"), args.join("\n")).expect("tmpfs write");
+        args = vec!["@args.txt".to_string()];
+    }
     let mut cmd = Command::new(bin_dir().join("rsbdd"));
     cmd.args(&args)
         .current_dir(dir)
@@ -778,6 +790,7 @@ pub fn execute_table(p: &TablePlan) -> RunOutcome {
             channel: &p.channel,
             args: base_args(p, p.b),
             ordering: ord_bytes.as_deref(),
+            style: 0,
         },
     );
     out.steps = 1;
@@ -845,9 +858,10 @@ pub fn execute_table(p: &TablePlan) -> RunOutcome {
                 // T7 / T8: variants must print byte-identical stdout
                 if vs.is_empty() {
                     for var in &p.variants {
-                        let (ch, b, oracle, what) = match var {
-                            Variant::Channel(c) => (c.clone(), p.b, "T7", format!("channel {}", c.name())),
-                            Variant::Repeat(n) => (p.channel.clone(), Some(*n), "T8", format!("-b {n}")),
+                        let (ch, b, oracle, what, style) = match var {
+                            Variant::Channel(c) => (c.clone(), p.b, "T7", format!("channel {}", c.name()), 0u8),
+                            Variant::Repeat(n) => (p.channel.clone(), Some(*n), "T8", format!("-b {n}"), 0u8),
+                            Variant::Style(st) => (p.channel.clone(), p.b, "T7", format!("argument style {st} (1 = relative paths, 2 = @argfile)"), *st),
                         };
                         let r = run_rsbdd(
                             &dir,
@@ -856,12 +870,14 @@ pub fn execute_table(p: &TablePlan) -> RunOutcome {
                                 channel: &ch,
                                 args: base_args(p, b),
                                 ordering: ord_bytes.as_deref(),
+                                style,
                             },
                         );
                         out.steps += 1;
                         match var {
                             Variant::Channel(c) => bump(&mut stats, &format!("fault.channel-{}", c.name())),
                             Variant::Repeat(_) => bump(&mut stats, "fault.repeat"),
+                            Variant::Style(_) => bump(&mut stats, "fault.argument-style"),
                         }
                         trace.push(digest_bytes(&r.stdout));
                         if r.status == Some(97) {
@@ -888,6 +904,7 @@ pub fn execute_table(p: &TablePlan) -> RunOutcome {
                             channel: &p.channel,
                             args: base_args(p, p.b),
                             ordering: None,
+                            style: 0,
                         },
                     );
                     out.steps += 1;
@@ -922,6 +939,7 @@ pub fn execute_table(p: &TablePlan) -> RunOutcome {
                             channel: &p.channel,
                             args: a_args.clone(),
                             ordering: ord_bytes.as_deref(),
+                            style: 0,
                         },
                     );
                     out.steps += 1;
@@ -935,6 +953,7 @@ pub fn execute_table(p: &TablePlan) -> RunOutcome {
                                     channel: &p.channel,
                                     args: a_args,
                                     ordering: Some(file.as_bytes()),
+                                    style: 0,
                                 },
                             );
                             out.steps += 1;
@@ -973,6 +992,7 @@ fn var_site(v: &Variant) -> &'static str {
         Variant::Channel(Channel::StdinFile) => "stdin-file",
         Variant::Channel(Channel::StdinPipe(_)) => "stdin-pipe",
         Variant::Repeat(_) => "repeat",
+        Variant::Style(_) => "argument-style",
     }
 }
 
@@ -1379,6 +1399,7 @@ pub fn execute_robust(p: &RobustPlan) -> RunOutcome {
                     channel: &channel,
                     args: a,
                     ordering: None,
+                    style: 0,
                 },
             )
         }
@@ -1389,6 +1410,7 @@ pub fn execute_robust(p: &RobustPlan) -> RunOutcome {
                 channel: &channel,
                 args: args.clone(),
                 ordering: ordering_arg.as_deref(),
+                style: 0,
             },
         ),
     };
@@ -1631,6 +1653,7 @@ pub fn execute_export(p: &ExportPlan) -> RunOutcome {
             channel: &p.channel,
             args,
             ordering: ord.as_deref(),
+            style: 0,
         },
     );
     out.steps = 1;
